@@ -39,13 +39,10 @@ fn shape_timerequest_3() {
 }
 #[cfg_attr(kani, kani::proof, kani::unwind(50))]
 #[cfg_attr(kani, kani::stub(core::fmt::write, crate::fmt_write_nop))]
-pub fn c10_time_timerequest() {
+pub fn c10_time_timerequest_1() {
     let v = nd::any_u32();
     match v {
         0 => shape_timerequest_0(),
-        1 => shape_timerequest_1(),
-        2 => shape_timerequest_2(),
-        3 => shape_timerequest_3(),
         _ if v >= 4 => {
             // an index the schema does not define must be rejected, not taken for some variant
             let mut w = W::new();
@@ -54,6 +51,33 @@ pub fn c10_time_timerequest() {
             rejects::<crux_time::TimeRequest>(&w);
             crate::nd_cover!(true, "TimeRequest: undefined variant index rejected");
         }
+        _ => nd::assume(false),
+    }
+}
+#[cfg_attr(kani, kani::proof, kani::unwind(50))]
+#[cfg_attr(kani, kani::stub(core::fmt::write, crate::fmt_write_nop))]
+pub fn c10_time_timerequest_2() {
+    let v = nd::any_u32();
+    match v {
+        0 => shape_timerequest_1(),
+        _ => nd::assume(false),
+    }
+}
+#[cfg_attr(kani, kani::proof, kani::unwind(50))]
+#[cfg_attr(kani, kani::stub(core::fmt::write, crate::fmt_write_nop))]
+pub fn c10_time_timerequest_3() {
+    let v = nd::any_u32();
+    match v {
+        0 => shape_timerequest_2(),
+        _ => nd::assume(false),
+    }
+}
+#[cfg_attr(kani, kani::proof, kani::unwind(50))]
+#[cfg_attr(kani, kani::stub(core::fmt::write, crate::fmt_write_nop))]
+pub fn c10_time_timerequest_4() {
+    let v = nd::any_u32();
+    match v {
+        0 => shape_timerequest_3(),
         _ => nd::assume(false),
     }
 }
@@ -93,13 +117,10 @@ fn shape_timeresponse_3() {
 }
 #[cfg_attr(kani, kani::proof, kani::unwind(50))]
 #[cfg_attr(kani, kani::stub(core::fmt::write, crate::fmt_write_nop))]
-pub fn c10_time_timeresponse() {
+pub fn c10_time_timeresponse_1() {
     let v = nd::any_u32();
     match v {
         0 => shape_timeresponse_0(),
-        1 => shape_timeresponse_1(),
-        2 => shape_timeresponse_2(),
-        3 => shape_timeresponse_3(),
         _ if v >= 4 => {
             // an index the schema does not define must be rejected, not taken for some variant
             let mut w = W::new();
@@ -108,6 +129,33 @@ pub fn c10_time_timeresponse() {
             rejects::<crux_time::TimeResponse>(&w);
             crate::nd_cover!(true, "TimeResponse: undefined variant index rejected");
         }
+        _ => nd::assume(false),
+    }
+}
+#[cfg_attr(kani, kani::proof, kani::unwind(50))]
+#[cfg_attr(kani, kani::stub(core::fmt::write, crate::fmt_write_nop))]
+pub fn c10_time_timeresponse_2() {
+    let v = nd::any_u32();
+    match v {
+        0 => shape_timeresponse_1(),
+        _ => nd::assume(false),
+    }
+}
+#[cfg_attr(kani, kani::proof, kani::unwind(50))]
+#[cfg_attr(kani, kani::stub(core::fmt::write, crate::fmt_write_nop))]
+pub fn c10_time_timeresponse_3() {
+    let v = nd::any_u32();
+    match v {
+        0 => shape_timeresponse_2(),
+        _ => nd::assume(false),
+    }
+}
+#[cfg_attr(kani, kani::proof, kani::unwind(50))]
+#[cfg_attr(kani, kani::stub(core::fmt::write, crate::fmt_write_nop))]
+pub fn c10_time_timeresponse_4() {
+    let v = nd::any_u32();
+    match v {
+        0 => shape_timeresponse_3(),
         _ => nd::assume(false),
     }
 }
@@ -312,9 +360,6 @@ pub fn c10_kv_keyvalueresult_1() {
     let v = nd::any_u32();
     match v {
         0 => shape_keyvalueresult_0(),
-        1 => shape_keyvalueresult_1(),
-        2 => shape_keyvalueresult_2(),
-        3 => shape_keyvalueresult_3(),
         _ => nd::assume(false),
     }
 }
@@ -323,10 +368,7 @@ pub fn c10_kv_keyvalueresult_1() {
 pub fn c10_kv_keyvalueresult_2() {
     let v = nd::any_u32();
     match v {
-        0 => shape_keyvalueresult_4(),
-        1 => shape_keyvalueresult_5(),
-        2 => shape_keyvalueresult_6(),
-        3 => shape_keyvalueresult_7(),
+        0 => shape_keyvalueresult_1(),
         _ => nd::assume(false),
     }
 }
@@ -335,10 +377,7 @@ pub fn c10_kv_keyvalueresult_2() {
 pub fn c10_kv_keyvalueresult_3() {
     let v = nd::any_u32();
     match v {
-        0 => shape_keyvalueresult_8(),
-        1 => shape_keyvalueresult_9(),
-        2 => shape_keyvalueresult_10(),
-        3 => shape_keyvalueresult_11(),
+        0 => shape_keyvalueresult_2(),
         _ => nd::assume(false),
     }
 }
@@ -347,10 +386,115 @@ pub fn c10_kv_keyvalueresult_3() {
 pub fn c10_kv_keyvalueresult_4() {
     let v = nd::any_u32();
     match v {
+        0 => shape_keyvalueresult_3(),
+        _ => nd::assume(false),
+    }
+}
+#[cfg_attr(kani, kani::proof, kani::unwind(50))]
+#[cfg_attr(kani, kani::stub(core::fmt::write, crate::fmt_write_nop))]
+pub fn c10_kv_keyvalueresult_5() {
+    let v = nd::any_u32();
+    match v {
+        0 => shape_keyvalueresult_4(),
+        _ => nd::assume(false),
+    }
+}
+#[cfg_attr(kani, kani::proof, kani::unwind(50))]
+#[cfg_attr(kani, kani::stub(core::fmt::write, crate::fmt_write_nop))]
+pub fn c10_kv_keyvalueresult_6() {
+    let v = nd::any_u32();
+    match v {
+        0 => shape_keyvalueresult_5(),
+        _ => nd::assume(false),
+    }
+}
+#[cfg_attr(kani, kani::proof, kani::unwind(50))]
+#[cfg_attr(kani, kani::stub(core::fmt::write, crate::fmt_write_nop))]
+pub fn c10_kv_keyvalueresult_7() {
+    let v = nd::any_u32();
+    match v {
+        0 => shape_keyvalueresult_6(),
+        _ => nd::assume(false),
+    }
+}
+#[cfg_attr(kani, kani::proof, kani::unwind(50))]
+#[cfg_attr(kani, kani::stub(core::fmt::write, crate::fmt_write_nop))]
+pub fn c10_kv_keyvalueresult_8() {
+    let v = nd::any_u32();
+    match v {
+        0 => shape_keyvalueresult_7(),
+        _ => nd::assume(false),
+    }
+}
+#[cfg_attr(kani, kani::proof, kani::unwind(50))]
+#[cfg_attr(kani, kani::stub(core::fmt::write, crate::fmt_write_nop))]
+pub fn c10_kv_keyvalueresult_9() {
+    let v = nd::any_u32();
+    match v {
+        0 => shape_keyvalueresult_8(),
+        _ => nd::assume(false),
+    }
+}
+#[cfg_attr(kani, kani::proof, kani::unwind(50))]
+#[cfg_attr(kani, kani::stub(core::fmt::write, crate::fmt_write_nop))]
+pub fn c10_kv_keyvalueresult_10() {
+    let v = nd::any_u32();
+    match v {
+        0 => shape_keyvalueresult_9(),
+        _ => nd::assume(false),
+    }
+}
+#[cfg_attr(kani, kani::proof, kani::unwind(50))]
+#[cfg_attr(kani, kani::stub(core::fmt::write, crate::fmt_write_nop))]
+pub fn c10_kv_keyvalueresult_11() {
+    let v = nd::any_u32();
+    match v {
+        0 => shape_keyvalueresult_10(),
+        _ => nd::assume(false),
+    }
+}
+#[cfg_attr(kani, kani::proof, kani::unwind(50))]
+#[cfg_attr(kani, kani::stub(core::fmt::write, crate::fmt_write_nop))]
+pub fn c10_kv_keyvalueresult_12() {
+    let v = nd::any_u32();
+    match v {
+        0 => shape_keyvalueresult_11(),
+        _ => nd::assume(false),
+    }
+}
+#[cfg_attr(kani, kani::proof, kani::unwind(50))]
+#[cfg_attr(kani, kani::stub(core::fmt::write, crate::fmt_write_nop))]
+pub fn c10_kv_keyvalueresult_13() {
+    let v = nd::any_u32();
+    match v {
         0 => shape_keyvalueresult_12(),
-        1 => shape_keyvalueresult_13(),
-        2 => shape_keyvalueresult_14(),
-        3 => shape_keyvalueresult_15(),
+        _ => nd::assume(false),
+    }
+}
+#[cfg_attr(kani, kani::proof, kani::unwind(50))]
+#[cfg_attr(kani, kani::stub(core::fmt::write, crate::fmt_write_nop))]
+pub fn c10_kv_keyvalueresult_14() {
+    let v = nd::any_u32();
+    match v {
+        0 => shape_keyvalueresult_13(),
+        _ => nd::assume(false),
+    }
+}
+#[cfg_attr(kani, kani::proof, kani::unwind(50))]
+#[cfg_attr(kani, kani::stub(core::fmt::write, crate::fmt_write_nop))]
+pub fn c10_kv_keyvalueresult_15() {
+    let v = nd::any_u32();
+    match v {
+        0 => shape_keyvalueresult_14(),
+        _ => nd::assume(false),
+    }
+}
+#[cfg_attr(kani, kani::proof, kani::unwind(50))]
+#[cfg_attr(kani, kani::stub(core::fmt::write, crate::fmt_write_nop))]
+pub fn c10_kv_keyvalueresult_16() {
+    let v = nd::any_u32();
+    match v {
+        0 => shape_keyvalueresult_15(),
         _ => nd::assume(false),
     }
 }
@@ -368,8 +512,14 @@ pub fn c10_kv_keyvalueresult_undefined() {
 
 #[cfg(not(kani))]
 pub const GENERATED_HARNESSES: &[(&str, fn())] = &[
-    ("c10_time_timerequest", c10_time_timerequest),
-    ("c10_time_timeresponse", c10_time_timeresponse),
+    ("c10_time_timerequest_1", c10_time_timerequest_1),
+    ("c10_time_timerequest_2", c10_time_timerequest_2),
+    ("c10_time_timerequest_3", c10_time_timerequest_3),
+    ("c10_time_timerequest_4", c10_time_timerequest_4),
+    ("c10_time_timeresponse_1", c10_time_timeresponse_1),
+    ("c10_time_timeresponse_2", c10_time_timeresponse_2),
+    ("c10_time_timeresponse_3", c10_time_timeresponse_3),
+    ("c10_time_timeresponse_4", c10_time_timeresponse_4),
     ("c10_time_instant", c10_time_instant),
     ("c10_time_duration", c10_time_duration),
     ("c10_time_timerid", c10_time_timerid),
@@ -377,5 +527,17 @@ pub const GENERATED_HARNESSES: &[(&str, fn())] = &[
     ("c10_kv_keyvalueresult_2", c10_kv_keyvalueresult_2),
     ("c10_kv_keyvalueresult_3", c10_kv_keyvalueresult_3),
     ("c10_kv_keyvalueresult_4", c10_kv_keyvalueresult_4),
+    ("c10_kv_keyvalueresult_5", c10_kv_keyvalueresult_5),
+    ("c10_kv_keyvalueresult_6", c10_kv_keyvalueresult_6),
+    ("c10_kv_keyvalueresult_7", c10_kv_keyvalueresult_7),
+    ("c10_kv_keyvalueresult_8", c10_kv_keyvalueresult_8),
+    ("c10_kv_keyvalueresult_9", c10_kv_keyvalueresult_9),
+    ("c10_kv_keyvalueresult_10", c10_kv_keyvalueresult_10),
+    ("c10_kv_keyvalueresult_11", c10_kv_keyvalueresult_11),
+    ("c10_kv_keyvalueresult_12", c10_kv_keyvalueresult_12),
+    ("c10_kv_keyvalueresult_13", c10_kv_keyvalueresult_13),
+    ("c10_kv_keyvalueresult_14", c10_kv_keyvalueresult_14),
+    ("c10_kv_keyvalueresult_15", c10_kv_keyvalueresult_15),
+    ("c10_kv_keyvalueresult_16", c10_kv_keyvalueresult_16),
     ("c10_kv_keyvalueresult_undefined", c10_kv_keyvalueresult_undefined),
 ];
